@@ -9,7 +9,7 @@ EXPLANATION = 'hint-dependent decisions enforced against: in-place swap only whe
 def jobs(tier, ws):
     js = [j for j in C05.jobs(tier, ws, prop='C10') if 'put_varm/stride0' in j.name or 'put_varm/stride1' in j.name]
     js += [j for j in C03.jobs(tier, ws, prop='C10') if 'ncmpio__enddef' in j.name]
-    for nd, el in ([(1, 4), (2, 4), (3, 2)] if tier == 'quick' else [(1, 1), (1, 4), (2, 1), (2, 4), (2, 8), (3, 2), (3, 8)]):
+    for nd, el in ([(1, 4), (2, 4)] if tier == 'quick' else [(1, 1), (1, 4), (2, 1), (2, 4), (2, 8), (3, 2)]):
         cm, sm = (3, 4) if nd < 3 else (2, 2)
         js.append(Job('C10/flatten_subarray/ndim%d_elsize%d' % (nd, el), 'C10', ['src/drivers/ncmpio/ncmpio_intra_node.c'], 'C10_flatten.c', enforce='ncmpio_intra_node.c:flatten_subarray',
                       defines=['-DNDIM=%d' % nd, '-DELSZ=%d' % el, '-DCMAX=%d' % cm, '-DSMAX=%d' % sm], canaries=['strided_three'] + (['single_run'] if nd == 1 else ['element_runs']), unwind=12, kind='bounded', timeout=600, solver=['--sat-solver', 'cadical'],
